@@ -274,7 +274,7 @@ func fieldUses(repo, rel string, fields []string) (string, error) {
 			continue
 		}
 		r := filepath.Join(filepath.Dir(rel), n)
-		if b, err := os.ReadFile(filepath.Join(repo, r)); err == nil && strings.HasPrefix(string(b), "//go:build verif\n") {
+		if b, err := os.ReadFile(filepath.Join(repo, r)); err == nil && (strings.HasPrefix(string(b), "//go:build verif\n") || strings.HasPrefix(string(b), "//go:build verif ")) {
 			continue // hooks of the verification harness: not part of a normal build
 		}
 		f, err := parseFile(repo, r)
